@@ -383,12 +383,27 @@ def scan_assumptions(text: str) -> list:
     found = []
     pats = [r"\bassume\s*\(", r"\badmit\s*\(", r"external_body", r"assume_specification", r"kani::assume", r"kani::stub",
             r"external_fn_specification", r"\bunsafe\b"]
-    for i, line in enumerate(text.splitlines(), 1):
+    lines = text.splitlines()
+    for i, line in enumerate(lines, 1):
         s = line.strip()
         if s.startswith("//"):
             continue
         for p in pats:
             if re.search(p, s):
-                found.append(s[:160])
+                if re.search(r"external_body|assume_specification", s) and "fn " not in s:
+                    # Verus: report the declaration the attribute sits on -- its signature and contract ARE the assumption
+                    decl = []
+                    for nxt in lines[i:i + 8]:
+                        t = nxt.strip()
+                        if not t or t.startswith("//") or t.startswith("#["):
+                            continue
+                        decl.append(t)
+                        if "{" in t or t.endswith(";"):
+                            break
+                    d = " ".join(decl)
+                    d = d.split("{ unimplemented!()")[0].strip()
+                    found.append(("assumed contract: " + d)[:400])
+                else:
+                    found.append(s[:160])
                 break
     return found
